@@ -290,6 +290,21 @@ func (m *wireMon) onEmit(p *wirePacket) {
 		}
 	}
 
+	// ---- C04: after the handshake every packet carries the peer's initiate tag
+	if peer.haveInit && len(p.chunks) > 0 && m.props["C04.vtag"] {
+		switch first {
+		case wtINIT:
+			if p.vtag != 0 {
+				w.violate("C04", "wrong-verification-tag", "%s emitted an INIT with verification tag %08x (must be 0)", m.name(X), p.vtag)
+			}
+		case wtABORT, wtSHUTDOWNCOMPLETE:
+			// may reflect the tag with the T bit
+		default:
+			if p.vtag != peer.initTag {
+				w.violate("C04", "wrong-verification-tag", "%s emitted a packet with verification tag %08x; the peer's initiate tag is %08x: %s", m.name(X), p.vtag, peer.initTag, p.summary())
+			}
+		}
+	}
 	for _, c := range p.chunks {
 		switch c.typ {
 		case wtINIT, wtINITACK:
